@@ -83,7 +83,8 @@ def execute(case):
     with Exec(case) as ex:
         ex.start()
         ex.run_schedule()
-        ex.settle(play=True, resumes=[11, 12, 13, 14, 15, 16], open_gates=True)
+        # no play after termination: it would release a stepping task that termination itself must release
+        ex.settle(play=True, resumes=[11, 12, 13, 14, 15, 16], open_gates=True, final_play=False)
         w = ex.world
         pid = ex.proc.pid
         # (a) the future is never resolved while the process is live
